@@ -158,7 +158,7 @@ Proof.
           (match rfind2 93 58 (58 :: p') with Some i => Some (S i) | None => Some O end).
         rewrite N93. reflexivity. }
       rewrite R. cbn [option_map].
-      rewrite skipn_pre, (py_int_digits p' Hd), firstn_pre. reflexivity.
+      unfold parse_port. rewrite skipn_pre, (py_int_digits p' Hd), firstn_pre. reflexivity.
   - destruct (partition_chr 58 (c :: r)) as [[nm found] p'] eqn:P.
     pose proof P as P'. apply partition_spec in P' as [Hn Hs].
     unfold parse_host. rewrite startswith_1, E.
@@ -168,15 +168,27 @@ Proof.
       assert (Hp : char_in 58 p' = false) by (apply digits_no; [exact Hdig | reflexivity]).
       rewrite P. rewrite Hs. rewrite (rfind_app 58 nm p' Hp), (find_app 58 nm p' Hn).
       cbn [opt_nat_eqb orb]. rewrite Nat.eqb_refl. cbn [negb].
-      rewrite (py_int_digits p' Hd). reflexivity.
+      unfold parse_port. rewrite (py_int_digits p' Hd). reflexivity.
     + destruct Hs as [-> ->]. intro H. injection H as <- <-.
       rewrite (rfind_none 58 (c :: r) Hn). reflexivity.
 Qed.
 
-(* the other side of the coin (C09 territory): a non-numeric port escapes as ValueError *)
-Example parse_host_bad_port_crashes :
-  parse_host [101; 120; 97; 109; 112; 108; 101; 46; 99; 111; 109; 58; 97; 98; 99] None = Crash ValueError /\
-  parse_host [101; 120; 97; 109; 112; 108; 101; 46; 99; 111; 109; 58] None = Crash ValueError.
+(* parse_host never raises (since the fix "treat a non-numeric port ... as not specified") *)
+Theorem parse_host_total h d : exists r, parse_host h d = Ok r.
+Proof.
+  unfold parse_host. destruct (startswith h [91]).
+  - destruct (rfind2 93 58 h); eexists; reflexivity.
+  - destruct (opt_nat_eqb (rfind_chr 58 h) None || negb (opt_nat_eqb (rfind_chr 58 h) (find_chr 58 h)));
+      [eexists; reflexivity|].
+    destruct (partition_chr 58 h) as [[name f] port]. eexists; reflexivity.
+Qed.
+
+(* a port that is not a number is "not specified" *)
+Example parse_host_bad_port_defaults :
+  parse_host [101; 120; 97; 109; 112; 108; 101; 46; 99; 111; 109; 58; 97; 98; 99] (Some 80%Z)
+  = Ok ([101; 120; 97; 109; 112; 108; 101; 46; 99; 111; 109], Some 80%Z) /\
+  parse_host [101; 120; 97; 109; 112; 108; 101; 46; 99; 111; 109; 58] None
+  = Ok ([101; 120; 97; 109; 112; 108; 101; 46; 99; 111; 109], None).
 Proof. vm_compute. split; reflexivity. Qed.
 
 (* ------------------------------------------------------------------ unquote_string *)
